@@ -209,6 +209,25 @@ for _pid, (_t, _x) in ROUND3B.items():
         _tech, _text, _ref = CLAIMS[_pid]
         CLAIMS[_pid] = (_tech + _t, _text + " " + _x, _ref)
 
+ROUND4 = {
+ "C01": ("; path-sensitive clean/dirty dataflow over the printers' private buffer with helper summaries", "Round 4: every printer body returns Ok only with its private buffer written out (R1.7)."),
+ "C03": ("", "Round 4: no window bound is compared with the file's modification time (R3.9); the bounds themselves keep their sub-second digits (R3.10, from C14 R14.10)."),
+ "C04": ("; sibling-row agreement over zone-notation families of the pattern table", "Round 4: the fallback-zone text is rendered from the same offset with sign and magnitude taken apart (R4.9); full-offset rows search at least as far as their hour-only sibling (R4.10); known finding F39: `+HHMM` under the <pri> family is read as +HH (R4.11)."),
+ "C05": ("", "Round 4: archive members named as a file argument are classified like walked ones (R5.12); the stored modification time is preferred whenever present (from C11 R11.2)."),
+ "C06": ("", "Round 4: the coordinator never waits on worker termination before every source is drained (R6.4 c2); every send on the worker channel is the blocking, lossless one (R6.10)."),
+ "C07": ("", "Round 4: every worker loop makes progress or ends (R7.12, with C11 R11.10)."),
+ "C08": ("", "Round 4: an out-of-range sub-second part is retried with zero nanoseconds before a record is given up (R8.12)."),
+ "C09": ("", "Round 4: every enumerated data item is written by the export rendering (R9.7 clause); the MESSAGE key is cut exactly once between libsystemd and the write (R9.9 clause)."),
+ "C10": ("", "Round 4: the evtx window predicate is decided by the C03 predicate tables (R10.9)."),
+ "C11": ("", "Round 4: the stored modification time wins over the file system's whenever it is present (R11.2 clause); the backwards walk strictly progresses (R11.10)."),
+ "C13": ("", "Round 4: every printer variant writes out what it batches (R13.12)."),
+ "C14": ("", "Round 4: no filter-pattern row reads fractional seconds with chrono's integer-nanosecond %f (R14.10)."),
+}
+for _pid, (_t, _x) in ROUND4.items():
+    if _pid in CLAIMS:
+        _tech, _text, _ref = CLAIMS[_pid]
+        CLAIMS[_pid] = (_tech + _t, _text + " " + _x, _ref)
+
 NA_REASON = {}
 
 checks = []
